@@ -462,4 +462,15 @@ pub fn run(ctx: &mut Ctx) {
         ctx.sample(|| json!({"family": what, "custom_root_sets": root_sets.len(), "subsets": 1u32 << n}));
     }
     let _ = Facts::default;
+    // ---- sequences of ontologies built one after the other at the same address: every subset of both
+    super::common::ontology_sequences(ctx, "sets", Mode::Defaults, &mut |ont, r| {
+        let ids: Vec<u32> = r.terms.keys().copied().collect();
+        for mask in 0..(1u32 << ids.len()) {
+            let x: Vec<u32> = crate::space::bits(mask, ids.len()).iter().map(|i| ids[*i]).collect();
+            if let Some(v) = check_subset(ont, r, &x) {
+                return Some(v);
+            }
+        }
+        None
+    });
 }
